@@ -1267,6 +1267,21 @@ theorem tangent_curve_repaired_on_domain (p d : ℕ) (U : ℕ → F) (P : List (
       = eval u (derivative (spanPoly p U P (findSpanLinearR p U P.length u) j)) :=
   tangentCurveR_true p d U P hU hP u h1 h2 j
 
+/-- **`operations.tangent` of a RATIONAL curve through the repaired search** (op `tancr 1 …`: A3.2 as coded on the span
+    found by the repaired search, A4.2, `(ders[0], ders[1])`), closed domain of EVERY sorted knot vector with `U_p < U_n`,
+    positive weights: with `w`, `A` the weight and numerator polynomials of the non-empty span found, `w(u) > 0`, the point
+    is `A(u) / w(u)` and the tangent vector the quotient rule `(A'·w − A·w') / w²` – at `u = U_n` from the left. -/
+theorem tangent_rational_curve_repaired_quotient_rule (p d : ℕ) (U : ℕ → F) (Pw : List (List F))
+    (hU : DomOk p U Pw.length) (hP : NetOk (d+1) Pw) (hwt : ∀ i, i < Pw.length → 0 < (ptsGet Pw i).getD d 0) (u : F)
+    (h1 : U p ≤ u) (h2 : u ≤ U Pw.length) (j : ℕ) (hj : j < d)
+    (w A : F[X]) (hw : w = spanPoly p U Pw (findSpanLinearR p U Pw.length u) d)
+    (hA : A = spanPoly p U Pw (findSpanLinearR p U Pw.length u) j) :
+    0 < eval u w ∧
+    (tangentCurve (ratCurveDers (curveDersA32R p U Pw u 1))).1.getD j 0 = eval u A / eval u w ∧
+    (tangentCurve (ratCurveDers (curveDersA32R p U Pw u 1))).2.getD j 0
+      = (eval u (derivative A) * eval u w - eval u A * eval u (derivative w)) / eval u w ^ 2 :=
+  tangentCurveR_rational_quotient p d U Pw hU hP hwt u h1 h2 j hj w A hw hA
+
 /-- **`operations.tangent(surface, (u, v), normalize=False)` through the repaired search** (op `tansr`), non-rational
     surface, closed domain, per direction `DomOk`: (surface point, `∂S/∂u`, `∂S/∂v`) of the bivariate span polynomial of
     the non-empty span pair found.  Rational: entries of `rational_surface_derivatives_repaired_on_domain`. -/
